@@ -48,4 +48,5 @@ class C11(Prop):
         return "%s/%s" % (clause, case.meta.get("kind"))
 
 
-PROP = C11()
+import sessmix
+PROP = sessmix.attach(C11(), sessmix.c11_cases, sessmix.c11_oracle, 120, 3000)
